@@ -185,13 +185,13 @@ def only_unswept_finished_children(orig: tuple, rest: tuple) -> bool:
     return all(sys_r.get(k) == v for k, v in sys_o.items()) and all(v in extra for k, v in sys_r.items() if k not in sys_o)
 
 
-def explore_machine(cfg, events: List[str], label: str, services=None, max_depth_actor: Optional[int] = None, guards=None):
+def explore_machine(cfg, events: List[str], label: str, services=None, max_depth_actor: Optional[int] = None, guards=None, actions=None):
     res = dict(states=0, transitions=0, executions=0, distinct_count=0, violations=[], samples=[], caps=[])
     for engine in ENGINES:
         # (30 virtual ms pass after every operation: the runner thread of a superseded or stopped actor gets past its poll
         # and runs its clean-up before the snapshot is taken)
-        h = Harness(cfg, with_plugin=True, services=services, threads=True, extra_guards=guards, tick=0.03)
-        h2 = Harness(cfg, with_plugin=True, services=services, threads=True, extra_guards=guards, tick=0.03)
+        h = Harness(cfg, with_plugin=True, services=services, threads=True, extra_guards=guards, extra_actions=actions, tick=0.03)
+        h2 = Harness(cfg, with_plugin=True, services=services, threads=True, extra_guards=guards, extra_actions=actions, tick=0.03)
         viol: List[Dict[str, Any]] = []
 
         def flag(clause, detail, hist, ev=None):
@@ -439,6 +439,9 @@ def units(tier: str) -> List[Any]:
     us += [("tree-rev", t) for t in rev]
     # a machine id that itself contains a dot ("m.v2"): every state id then has one more dot than its depth
     us += [("tree-dot", t) for t in rev]
+    # context whose KEY SET changes: an action removes a key the machine declares (DROP), another puts it back (PUT), a
+    # guarded transition tells presence from absence (IFT): the restored context is the snapshot's, not "defaults + snapshot"
+    us += [("tree-ctx", t) for t in F.trees_upto(2 if tier == "quick" else 3)]
     us.append(("actorg", None))
     us.append(("actor", None))
     us.append(("actorf", None))
@@ -469,6 +472,25 @@ def _run_unit(unit):
         F.cfg_node(cfg, nodes[0]).setdefault("on", {})["INC"] = {"actions": [A.assign(lambda a: {"k": (a["context"]["k"] + 1) % 2})]}
         evs = [n for n, e in events.items() if e["kind"] == "T"] + ["INC"]
         return explore_machine(cfg, evs, F.tree_str(payload) + {"tree": "", "tree-rev": " (keys z,y,x,...)", "tree-dot": " (machine id m.v2)"}[kind])
+    if kind == "tree-ctx":
+        cfg, nodes, events = F.universal_config(payload, reenter_all=False)
+        cfg["context"] = {"k": 0, "t": "dflt", "deep": {"u": 1}}
+        on = F.cfg_node(cfg, nodes[0]).setdefault("on", {})
+        on["DROP"] = {"actions": ["ctx:drop"]}
+        on["PUT"] = {"actions": [A.assign(lambda a: {"t": "put"})]}
+        on["DROPDEEP"] = {"actions": ["ctx:dropdeep"]}
+        on["IFT"] = [{"guard": "has_t", "actions": ["tr:has-t"]}, {"actions": ["tr:no-t"]}]
+
+        def drop(interp, ctx, event, action_def):
+            ctx.pop("t", None)
+
+        def dropdeep(interp, ctx, event, action_def):
+            ctx["deep"].pop("u", None)
+
+        evs = [n for n, e in events.items() if e["kind"] == "T"][:2] + ["DROP", "PUT", "DROPDEEP", "IFT"]
+        return explore_machine(cfg, evs, F.tree_str(payload) + " (context keys removed / re-added)",
+                               guards={"has_t": lambda ctx, ev, p=None: "t" in ctx},
+                               actions={"ctx:drop": drop, "ctx:dropdeep": dropdeep})
     if kind == "actor":
         return explore_machine(actor_cfg(), ACTOR_EVENTS, "ACTOR", services={"kid": kid_machine()})
     if kind == "actorf":
